@@ -220,3 +220,235 @@ Qed.
 
 Lemma rl_run_tie : forall c retry h, gen_run c retry gen_RateLimiter_buckets_init h = Ok (Bucket.run c [] h).
 Proof. intros. apply (rl_run_from c retry h []). constructor. Qed.
+
+(* ---------- AccessControl ---------- *)
+Definition ac_init_spec (ipnet : str -> option net) (al dl : option (list str)) : res (list net * list net) :=
+  match parse_entries ipnet (olist al), parse_entries ipnet (olist dl) with
+  | Some a, Some d => Ok (a, d)
+  | _, _ => Err (lit "ValueError") []
+  end.
+
+Definition denied_line : str := lit "53 Access denied" ++ [13; 10]%N.
+Definition ac_answer (ok : bool) : bool * option str := if ok then (true, None) else (false, Some denied_line).
+
+(* a loop that appends the network of each entry (three attempts) to an accumulator, characterised by its two equations *)
+Lemma entry_loop_spec {R : Type} (ipnet : str -> option net) (F : list str -> list net -> R) (k : list net -> R) (err : R) :
+  (forall acc, F [] acc = k acc) ->
+  (forall s l acc, F (s :: l) acc =
+     match ipnet s with Some v => F l (acc ++ [v]) | None =>
+     match ipnet (s ++ lit "/32") with Some v => F l (acc ++ [v]) | None =>
+     match ipnet (s ++ lit "/128") with Some v => F l (acc ++ [v]) | None => err end end end) ->
+  forall l acc, F l acc = match parse_entries ipnet l with Some ns => k (acc ++ ns) | None => err end.
+Proof.
+  intros B S l. induction l as [|s l IH]; intro acc.
+  - rewrite B. cbn [parse_entries]. rewrite app_nil_r. reflexivity.
+  - rewrite S. cbn [parse_entries]. unfold parse_entry.
+    destruct (ipnet s) as [?|];
+      [| destruct (ipnet (s ++ lit "/32")) as [?|]; [| destruct (ipnet (s ++ lit "/128")) as [?|]; [|reflexivity]]];
+      rewrite IH; destruct (parse_entries ipnet l); try reflexivity; rewrite <- app_assoc; reflexivity.
+Qed.
+
+Ltac attempts ipnet := repeat match goal with |- context [match ipnet ?s with _ => _ end] => destruct (ipnet s) end.
+
+(* goal: <the deny-list part of __init__, allow networks A already built> = match parse_entries (olist dl) ... *)
+Ltac solve_deny ipnet dl A :=
+  let d := fresh "d" in let dl' := fresh "dl" in
+  destruct dl as [[|d dl']|]; cbn [olist parse_entries]; try reflexivity;
+  unfold parse_entry; attempts ipnet; try reflexivity;
+  match goal with |- ?F dl' ?acc = _ =>
+    rewrite (entry_loop_spec ipnet F (fun x => Ok (A, x)) (Err (lit "ValueError") [])) by (intros; reflexivity)
+  end;
+  destruct (parse_entries ipnet dl'); reflexivity.
+
+Lemma ac_init_tie : forall ipnet al dl, gen_ac_init ipnet al dl = ac_init_spec ipnet al dl.
+Proof.
+  intros ipnet al dl. unfold gen_ac_init, ac_init_spec. cbv zeta.
+  destruct al as [[|a al']|]; cbn [olist parse_entries].
+  - solve_deny ipnet dl (@nil net).
+  - unfold parse_entry; attempts ipnet; try reflexivity.
+    all: match goal with |- ?F ?l ?acc = _ =>
+           rewrite (entry_loop_spec ipnet F
+                      (fun A => match parse_entries ipnet (olist dl) with Some d => Ok (A, d) | None => Err (lit "ValueError") [] end)
+                      (Err (lit "ValueError") []));
+           [ destruct (parse_entries ipnet l); reflexivity
+           | let A := fresh "A" in intro A; solve_deny ipnet dl A
+           | intros; reflexivity ]
+         end.
+  - solve_deny ipnet dl (@nil net).
+Qed.
+
+Lemma ac_is_allowed_tie : forall ipaddr dn al dflt ip,
+  gen_ac_is_allowed ipaddr dn al dflt ip = is_allowed {| allow := al; deny := dn; default_allow := dflt |} (ipaddr ip).
+Proof.
+  intros. unfold gen_ac_is_allowed, is_allowed. cbn [allow deny default_allow].
+  destruct (ipaddr ip) as [x|]; [|reflexivity].
+  induction dn as [|n dn IH]; cbn [existsb].
+  - destruct al as [|a al]; [reflexivity|].
+    cbn [existsb]. revert a.
+    induction al as [|m al IHl]; intro a; cbn [existsb];
+      (destruct (contains a x); cbn [orb]; [reflexivity|]); [reflexivity|apply IHl].
+  - destruct (contains n x); [reflexivity|exact IH].
+Qed.
+
+Lemma ac_process_tie : forall ipaddr dn al dflt url ip fp,
+  gen_ac_process ipaddr dn al dflt url ip fp =
+  ac_answer (is_allowed {| allow := al; deny := dn; default_allow := dflt |} (ipaddr ip)).
+Proof.
+  intros. unfold gen_ac_process. rewrite ac_is_allowed_tie.
+  destruct (is_allowed _ _); reflexivity.
+Qed.
+
+(* __init__ followed by process_request = the model's decision of the running server (Model.Ip.server_admits) *)
+Lemma ac_server_tie : forall ipnet ipaddr s url ip fp,
+  wants_component s = true ->
+  match gen_ac_init ipnet (sc_allow s) (sc_deny s) with
+  | Ok (a, d) => Some (fst (gen_ac_process ipaddr d a (sc_default s) url ip fp))
+  | _ => None
+  end = server_admits ipnet s (ipaddr ip).
+Proof.
+  intros ipnet ipaddr s url ip fp W. unfold server_admits, build. rewrite W, ac_init_tie. unfold ac_init_spec.
+  destruct (parse_entries ipnet (olist (sc_allow s))) as [a|]; [|reflexivity].
+  destruct (parse_entries ipnet (olist (sc_deny s))) as [d|]; [|reflexivity].
+  rewrite ac_process_tie. destruct (is_allowed _ _); reflexivity.
+Qed.
+
+(* ---------- Router ---------- *)
+Definition py_route_of {REQ RX : Type} (r : Proxy.route (REQ -> resp)) : py_Route REQ RX :=
+  mk_py_Route (rt_pattern r) (rt_handler r)
+              (match rt_type r with RExact => RouteType_EXACT | RPrefix => RouteType_PREFIX end) None.
+
+Definition not_found : resp := {| rs_status := 51; rs_meta := lit "Not found"; rs_body := BNone |}.
+
+Definition py_matches {REQ RX : Type} (rxm : RX -> str -> option unit) (path : str) (r : py_Route REQ RX) : bool :=
+  match Route_route_type r with
+  | RouteType_EXACT => eqb path (Route_pattern r)
+  | RouteType_PREFIX => prefixb (Route_pattern r) path
+  | RouteType_REGEX => match Route_compiled_regex r with
+                       | Some x => match rxm x path with Some _ => true | None => false end
+                       | None => false
+                       end
+  end.
+
+Definition or_default {REQ : Type} (dflt : option (REQ -> resp)) (request : REQ) : resp :=
+  match dflt with Some h => h request | None => not_found end.
+
+Lemma router_matches_tie : forall REQ RX rxm path (r : py_Route REQ RX),
+  gen_router_matches REQ RX rxm path r = py_matches rxm path r.
+Proof.
+  intros. unfold gen_router_matches, py_matches.
+  destruct (Route_route_type r); cbn [py_RouteType_eqb]; [reflexivity|reflexivity|].
+  destruct (Route_compiled_regex r) as [x|]; [|reflexivity]. destruct (rxm x path); reflexivity.
+Qed.
+
+Lemma router_route_first_match : forall REQ RX req_path rxm (routes : list (py_Route REQ RX)) dflt request,
+  gen_router_route REQ RX req_path rxm routes dflt request =
+  match find (py_matches rxm (req_path request)) routes with
+  | Some r => Route_handler r request
+  | None => or_default dflt request
+  end.
+Proof.
+  intros. unfold gen_router_route. cbv zeta.
+  induction routes as [|r routes IH]; cbn [find].
+  - destruct dflt; reflexivity.
+  - rewrite router_matches_tie. destruct (py_matches rxm (req_path request) r); [reflexivity|exact IH].
+Qed.
+
+Lemma router_route_tie : forall REQ RX req_path rxm (routes : list (Proxy.route (REQ -> resp))) dflt request,
+  gen_router_route REQ RX req_path rxm (map py_route_of routes) dflt request =
+  match Proxy.route_to routes (req_path request) with
+  | Some h => h request
+  | None => or_default dflt request
+  end.
+Proof.
+  intros. rewrite router_route_first_match.
+  induction routes as [|r routes IH]; [reflexivity|].
+  cbn [map find Proxy.route_to]. 
+  replace (py_matches rxm (req_path request) (py_route_of r)) with (Proxy.matches (req_path request) r)
+    by (unfold py_matches, Proxy.matches, py_route_of; cbn [Route_route_type Route_pattern]; destruct (rt_type r); reflexivity).
+  destruct (Proxy.matches (req_path request) r); [reflexivity|exact IH].
+Qed.
+
+(* Router.add_route *)
+Definition add_route_spec {REQ RX : Type} (rc : str -> option RX) (routes : list (py_Route REQ RX)) (pattern : str)
+                          (handler : REQ -> resp) (ty : py_RouteType) : res (list (py_Route REQ RX)) :=
+  match ty with
+  | RouteType_REGEX => match rc pattern with
+                       | Some x => Ok (routes ++ [mk_py_Route pattern handler ty (Some x)])
+                       | None => Err (lit "ValueError") []
+                       end
+  | _ => Ok (routes ++ [mk_py_Route pattern handler ty None])
+  end.
+
+Lemma router_add_route_tie : forall REQ RX rc (routes : list (py_Route REQ RX)) pattern handler ty,
+  gen_router_add_route REQ RX rc routes pattern handler ty = add_route_spec rc routes pattern handler ty.
+Proof.
+  intros. unfold gen_router_add_route, add_route_spec.
+  destruct ty; cbn [py_RouteType_eqb]; try reflexivity; destruct (rc pattern); reflexivity.
+Qed.
+
+Lemma router_add_model_route : forall REQ RX rc (routes : list (Proxy.route (REQ -> resp))) (r : Proxy.route (REQ -> resp)),
+  gen_router_add_route REQ RX rc (map py_route_of routes) (rt_pattern r) (rt_handler r)
+                       (match rt_type r with RExact => RouteType_EXACT | RPrefix => RouteType_PREFIX end) =
+  Ok (map py_route_of (routes ++ [r])).
+Proof.
+  intros. rewrite router_add_route_tie, map_app. unfold add_route_spec, py_route_of. cbn [map].
+  destruct (rt_type r); reflexivity.
+Qed.
+
+(* ---------- proxy relay ---------- *)
+Definition relay_spec (r : callres resp) : resp :=
+  match r with
+  | CRet x => x
+  | CExc KTimeoutError _ => {| rs_status := 43; rs_meta := lit "Upstream timeout"; rs_body := BNone |}
+  | CExc KConnectionError m => {| rs_status := 43; rs_meta := lit "Upstream connection failed: " ++ m; rs_body := BNone |}
+  | CExc KOtherException m => {| rs_status := 43; rs_meta := lit "Proxy error: " ++ m; rs_body := BNone |}
+  end.
+
+Lemma proxy_relay_tie : forall (get : str -> callres resp) url, gen_proxy_relay get url = relay_spec (get url).
+Proof.
+  intros. unfold gen_proxy_relay, relay_spec. destruct (get url) as [x|[| |] m]; reflexivity.
+Qed.
+
+(* the model's upstream behaviours, as the outcome of the client call the relay code sees *)
+Definition upstream_call (msg : str) (cap : N) (u : upstream) : callres resp :=
+  match u with
+  | UConnectFail => CExc KConnectionError msg
+  | UTimeout => CExc KTimeoutError msg
+  | UStream b exc =>
+      match Spec.C13.spec_result false cap (fun _ _ => None) b exc with
+      | ClientProto.ROk r => CRet {| rs_status := Z.of_N (ClientProto.cr_status r); rs_meta := ClientProto.cr_meta r;
+                         rs_body := match ClientProto.cr_body r with ClientProto.CBytes x => BBytes x | ClientProto.CText x => BText x | ClientProto.CNone => BNone end |}
+      | ClientProto.RErr k => CExc KOtherException k
+      end
+  end.
+
+Lemma proxy_relay_model_partial : forall msg cap u url,
+  let g := gen_proxy_relay (fun _ => upstream_call msg cap u) url in
+  let m := proxy_response cap u in
+  rs_status g = rs_status m /\ rs_body g = rs_body m /\ prefixb (rs_meta m) (rs_meta g) = true /\
+  (u <> UConnectFail -> g = m).
+Proof.
+  intros msg cap u url. cbv zeta. rewrite proxy_relay_tie.
+  destruct u as [b exc| |]; unfold upstream_call, proxy_response.
+  - destruct (Spec.C13.spec_result false cap (fun _ _ => None) b exc) as [r|k]; cbn [relay_spec rs_status rs_body rs_meta];
+      (split; [reflexivity|split; [reflexivity|split; [|reflexivity]]]).
+    + clear. induction (ClientProto.cr_meta r) as [|c s IH]; [reflexivity|]. cbn [prefixb]. rewrite N.eqb_refl. exact IH.
+    + clear. induction (lit "Proxy error: " ++ k) as [|c s IH]; [reflexivity|]. cbn [prefixb]. rewrite N.eqb_refl. exact IH.
+  - cbn [relay_spec rs_status rs_body rs_meta]. split; [reflexivity|split; [reflexivity|split]].
+    + change (lit "Upstream connection failed: ") with (lit "Upstream connection failed" ++ lit ": ").
+      rewrite <- app_assoc. apply prefixb_app.
+    + intro H. exfalso. apply H. reflexivity.
+  - cbn [relay_spec rs_status rs_body rs_meta]. repeat split; reflexivity.
+Qed.
+
+(* the exact equality fails for a failed connection: the model's text has no detail *)
+Lemma proxy_relay_model_counterexample :
+  gen_proxy_relay (fun _ => upstream_call (lit "x") 0 UConnectFail) [] <> proxy_response 0 UConnectFail.
+Proof. vm_compute. discriminate. Qed.
+
+(* ---------- why rl_cleanup_tie needs distinct keys: an association list that is not a dict ---------- *)
+Lemma rl_cleanup_needs_distinct_keys :
+  let c := {| cap := 1; rate := 1 |} in
+  let st := [(lit "a", {| tokens := 0; last := 999 |}); (lit "a", {| tokens := 1; last := 0 |})] in
+  gen_rl_cleanup_pass 1000 (table c st) <> Ok (table c (cleanup c st 1000)).
+Proof. vm_compute. discriminate. Qed.
